@@ -14,9 +14,9 @@ func init() { Registry["C05"] = c05 }
 // writerInfo describes the routine that performs the regulation write.
 type writerInfo struct {
 	fn        *ssa.Function
-	setPwm    *ssa.Call   // the Fan.SetPwm invoke
-	expected  ssa.Value   // its argument
-	term      *ir.Term    // normalised term of the argument
+	setPwm    *ssa.Call // the Fan.SetPwm invoke
+	expected  ssa.Value // its argument
+	term      *ir.Term  // normalised term of the argument
 	reqParam  *ssa.Parameter
 	lastField string // controller field that records the last request (address of a cell holding the request parameter)
 }
